@@ -1,4 +1,4 @@
-"""lexer.py, parser.py, emitter.py -> Gen/SrcDigestGen.v : one digest per function / method and one per module for the
+"""every module of octave_mcp -> Gen/SrcDigestGen.v : one digest per function / method and one per module for the
 module-level statements.
 
 The lexer, parser and emitter models (Lex/Lexer.v, Syn/Parser.v, Syn/Emitter.v) are written by hand against the source
@@ -12,7 +12,22 @@ import hashlib
 from .tlib import HEADER, coq_str, need, parse_file
 
 OUTPUTS = ["SrcDigestGen.v"]
-MODULES = [("lexer", "core/lexer.py"), ("parser", "core/parser.py"), ("emitter", "core/emitter.py")]
+
+
+def module_list(src):
+    """every non-empty module of the package: [(short name, relative path)]"""
+    out = []
+    for p in sorted(src.rglob("*.py")):
+        rel = p.relative_to(src).as_posix()
+        if "__pycache__" in rel or rel.startswith("resources/") or not p.read_text().strip():
+            continue
+        short = rel[:-3].replace("/", "_")
+        if short.endswith("___init__"):
+            short = short[:-9] + "_pkg" if short != "__init__" else "pkg"
+        if short == "__init__":
+            short = "pkg"
+        out.append((short, rel))
+    return out
 
 
 def _strip_doc(node):
@@ -30,19 +45,19 @@ def _dg(node):
 
 def digests(src):
     out = []
-    for short, rel in MODULES:
+    for short, rel in module_list(src):
         mod = parse_file(src / rel)
         rest = []
         names = []
         for node in mod.body:
             if isinstance(node, (ast.FunctionDef, ast.AsyncFunctionDef)):
-                out.append((f"dg_{short}_{node.name}", _dg(node)))
+                out.append((short, f"dg_{short}_{node.name}", _dg(node)))
                 names.append(node.name)
             elif isinstance(node, ast.ClassDef):
                 crest = []
                 for m in node.body:
                     if isinstance(m, (ast.FunctionDef, ast.AsyncFunctionDef)):
-                        out.append((f"dg_{short}_{node.name}_{m.name}", _dg(m)))
+                        out.append((short, f"dg_{short}_{node.name}_{m.name}", _dg(m)))
                         names.append(f"{node.name}.{m.name}")
                     else:
                         crest.append(m)
@@ -56,14 +71,18 @@ def digests(src):
             else:
                 rest.append(node)
         m2 = ast.Module(body=rest or [ast.Pass()], type_ignores=[])
-        out.append((f"dg_{short}_module_level", _dg(m2)))
-        out.append((f"dg_{short}_function_names", hashlib.sha256("\n".join(names).encode()).hexdigest()[:16]))
-    need(len({n for n, _ in out}) == len(out), "duplicate digest names (overloaded / redefined functions)")
+        out.append((short, f"dg_{short}_module_level", _dg(m2)))
+        out.append((short, f"dg_{short}_function_names", hashlib.sha256("\n".join(names).encode()).hexdigest()[:16]))
+    need(len({n for _, n, _ in out}) == len(out), "duplicate digest names (overloaded / redefined functions)")
     return out
 
 
 def generate(src):
     out = [HEADER]
-    for name, d in digests(src):
+    cur = None
+    for mod, name, d in digests(src):
+        if mod != cur:
+            out.append(f"(* MODULE {mod} *)\n")
+            cur = mod
         out.append(f"Definition {name} : list N := {coq_str(d)}.\n")
     return {"SrcDigestGen.v": "".join(out)}
